@@ -963,5 +963,5 @@ CHECKS = {
                           'FastPasta.C20.rdh_version_iff', 'FastPasta.C20.period_eq', 'FastPasta.C20.period_iff', 'FastPasta.C20.no_period_silent',
                           'FastPasta.C20.pairing', 'FastPasta.C20.chip_count_iff', 'FastPasta.C20.chip_order_iff', 'FastPasta.C20.inner_builtin',
                           'FastPasta.C20.ob_unconfigured_silent',
-                          'FastPasta.C20.period_src_iff', 'FastPasta.C20.tdh_buffer_src', 'FastPasta.C20.chip_checks_src']),
+                          'FastPasta.C20.period_src_iff', 'FastPasta.C20.tdh_buffer_src', 'FastPasta.C20.chip_checks_src', 'FastPasta.C20.custom_stats_src']),
 }
